@@ -795,4 +795,61 @@ example : slashURL (.addWith ⟨false, 301⟩)
     { path := "/users".toList, forceQuery := true, fragment := "f".toList,
       host := "evil.com".toList, rawPath := "/users".toList } [] = .redirect 301 "/users/".toList := by decide
 
+/-! ## protocol version, Host header, and sequences of requests (round 7) -/
+
+/-- **C17_request_same_host** — whatever protocol version the request names (HTTP/1.0, 0.9, 2),
+    with or without a `Host` header, over TLS or not: the redirect of a slash middleware for a path
+    starting with `/` is a path on the same host (in particular never `scheme://…`) -/
+theorem C17_request_same_host (k : SlashCtor) (u : URL) (conn : Conn) (ru : List Char)
+    (hp : u.path.head? = some '/') (code : Nat) (loc : List Char)
+    (h : slashRequest k u conn ru = .redirect code loc) : SameHost loc :=
+  C17_url_same_host k u ru hp code loc h
+
+theorem C17_conn_ignored (k : SlashCtor) (u : URL) (conn conn' : Conn) (ru : List Char) :
+    slashRequest k u conn ru = slashRequest k u conn' ru := rfl
+
+/-- **C17_query_bytes** — the query string is copied byte for byte, whatever its bytes are
+    (`%`, `%zz`, `;`, `&&`, `=` — nothing is parsed): for an ordinary path and a valid code the
+    target is exactly path ± `/` followed by `?` and the query -/
+theorem C17_query_bytes (code : Nat) (p q ru : List Char) (ho : Ordinary p) (hq : q ≠ [])
+    (hc : 300 ≤ code ∧ code ≤ 308) :
+    (endsWithSlash p = false →
+      slashMw (.addWith ⟨false, code⟩) p q ru = .redirect code (p ++ '/' :: '?' :: q)) ∧
+    slashMw (.removeWith ⟨false, code⟩) (p ++ ['/']) q ru = .redirect code (p ++ '?' :: q) := by
+  have h := C17_ordinary_ctor code p q ru ho hc
+  have hqp : queryPart q = '?' :: q := by
+    cases q with
+    | nil => exact absurd rfl hq
+    | cons _ _ => rfl
+  rw [hqp] at h
+  constructor
+  · intro hs; have := h.1 hs; simpa using this
+  · exact h.2
+
+/-- **C17_seq_independent** — in a sequence of requests through one application every answer is
+    the answer to that request alone: nothing of an earlier request (its query, its path, its
+    target) can show up in a later `Location` -/
+theorem C17_seq_independent (before after : List Req) (r : Req) :
+    (runSeq (before ++ r :: after))[before.length]? = some (runReq r) := by
+  simp [runSeq]
+
+/-- **C17_seq_same_host** — every redirect in a sequence, for a request path starting with `/`,
+    stays on the host -/
+theorem C17_seq_same_host (rs : List Req) (i : Nat) (r : Req) (hr : rs[i]? = some r)
+    (hp : r.path.head? = some '/') (code : Nat) (loc : List Char)
+    (h : (runSeq rs)[i]? = some (.redirect code loc)) : SameHost loc := by
+  simp only [runSeq, List.getElem?_map, hr, Option.map_some, Option.some.injEq] at h
+  exact C17_req_same_host r hp code loc h
+
+-- `/search?q=first` then `/search?q=second` through one AddTrailingSlash instance
+example : runSeq [.slash (.addWith ⟨false, 301⟩) "/search".toList "q=first".toList [],
+                  .slash (.addWith ⟨false, 301⟩) "/search".toList "q=second".toList []] =
+    [.redirect 301 "/search/?q=first".toList, .redirect 301 "/search/?q=second".toList] := by decide
+-- a query that url.ParseQuery rejects
+example : slashMw (.addWith ⟨false, 301⟩) "/users".toList "discount=100%".toList [] =
+    .redirect 301 "/users/?discount=100%".toList := by decide
+-- HTTP/1.0 without Host
+example : slashRequest (.addWith ⟨false, 301⟩) { path := "/example.com/x".toList } ⟨1, 0, [], false⟩ [] =
+    .redirect 301 "/example.com/x/".toList := by decide
+
 end C17
